@@ -14,9 +14,20 @@ against an adaptive Cauchy-weight quadrature (QUADPACK QAWC via scipy.integrate.
 ImX(pt, x), cross-validated on a sub-sample by an mpmath tanh-sinh evaluation; including
 GoloskokovKrollCFF / GK12D (whose real parts ARE computed dispersively: they inherit
 DispersionCFF.ReH/ReE/ReHt and use DispersionCFF.ReEt + pole) and the Hybrid sum on the real objects.
+
+REUSE stream (exact + oracle, on the real objects only): ONE model object whose parameters are changed several
+times in a row by every public way (parameters.update, item assignment, rebinding the attribute to a merged /
+a completely new dict, predict(..., parameters=...)); after each step every CFF is compared bit-for-bit with
+a FRESH object of the same class holding the same values, and the property itself is evaluated (PV oracle with
+the subtraction constant computed independently from the dict that is bound NOW).
+
+If the Lean model driver is unavailable (common.ModelUnavailable) that is one violation without a failing
+input; every stream on the real objects (exact clauses, sequences, re-use, all oracle streams) still runs.
 """
 import json
 import math
+import os
+import traceback
 import warnings
 
 import common
@@ -67,6 +78,37 @@ def real(fn):
         return float(v)
     except Exception as e:  # noqa
         return 'EXC:' + type(e).__name__
+
+
+def in_repo(exc):
+    """was the exception raised from (or through) a frame of the package under test?"""
+    root = os.path.realpath(os.path.join(common.REPO, 'src')) + os.sep
+    try:
+        return any(os.path.realpath(fr.filename).startswith(root) for fr in traceback.extract_tb(exc.__traceback__))
+    except Exception:  # noqa
+        return True
+
+
+def apply_step(m, step):
+    """one parameter change on a (re-used) model object, by one of the public ways (used by run and replay)"""
+    how, chg = step['how'], step['values']
+    old = m.parameters
+    if how == 'update':
+        m.parameters.update(chg)
+    elif how == 'setitem':
+        for k, v in chg.items():
+            m.parameters[k] = v
+    elif how == 'rebind-merge':
+        m.parameters = dict(m.parameters, **chg)
+    elif how == 'rebind-full':
+        m.parameters = dict(chg)
+    elif how == 'rebind-copy+update':
+        m.parameters = m.parameters.copy()
+        m.parameters.update(chg)
+    else:
+        raise ValueError(how)
+    if step.get('detached_write') and old is not m.parameters:
+        old.update(step['detached_write'])     # the dict that is no longer the model's: must have no effect
 
 
 def parse_res(o):
@@ -197,6 +239,63 @@ def run(rep):
     def add(line, **m):
         lines.append(line)
         meta.append(m)
+
+    # ---------------- the property itself on the real code: helpers of the ORACLE streams ----------------
+    omax = {}
+    selfagree = 0.
+    n_oracle = 0
+
+    def record(tag, rel):
+        omax[tag] = max(omax.get(tag, 0.), rel)
+
+    def km_oracle(label, mobj, pt, kw, pars, via=None, cross=False, stream='oracle'):
+        """ReH / ReE / ReHt of a KM-type object against the PV integral of its own Im; `via` = class whose
+        methods are called unbound on a Hybrid object (the dispersive part)"""
+        nonlocal selfagree, n_oracle
+        bad = []
+        xi = pt.xi
+        if via is None:
+            imH, imHt = (lambda x: float(mobj.ImH(pt, x))), (lambda x: float(mobj.ImHt(pt, x)))
+            vals = dict(H=real(lambda: mobj.ReH(pt)), E=real(lambda: mobj.ReE(pt)), Ht=real(lambda: mobj.ReHt(pt)))
+        else:
+            imH, imHt = (lambda x: float(via.ImH(mobj, pt, x))), (lambda x: float(via.ImHt(mobj, pt, x)))
+            vals = dict(H=real(lambda: via.ReH(mobj, pt, imfun=via.ImH)), E=real(lambda: via.ReE(mobj, pt, imfun=via.ImE)),
+                        Ht=real(lambda: via.ReHt(mobj, pt, imfun=via.ImHt)))
+        # independent value of the subtraction constant of the KM models
+        Cind = pars['C'] / (1. - pt.t / pars['mC2']) ** 2
+        for w, F, kind, extra in (('H', imH, 'V', -Cind), ('E', (lambda x: 0.), 'V', +Cind), ('Ht', imHt, 'A', 0.)):
+            v = vals[w]
+            n_oracle += 1
+            if not isinstance(v, float):
+                bad.append((w, v, None, None))
+                continue
+            okk, rel, ref, scale, est = oracle_check(F, xi, kind, v, extra)
+            rep.case(stream, (label, w, xi, pt.t, is_neutron(pt)), nontrivial=scale > 0 or extra != 0,
+                     sample=dict(model=label, which='Re' + w, xi=xi, t=pt.t, code=v, pv_reference=ref, rel=rel))
+            record('KM.Re' + w, rel if rel != float('inf') else 1e300)
+            if scale > 0:
+                rep.hist('oracle.rel.decade', int(math.floor(math.log10(max(rel, 1e-17)))))
+            if cross and scale > 0:
+                o2 = pv_mpmath(F, xi, kind) / math.pi + extra
+                selfagree = max(selfagree, abs(o2 - ref) / scale)
+            if not okk:
+                bad.append((w, v, ref, rel))
+        return bad
+
+    def hybrid_sum_oracle(name, th, pt, pars, mbH, v, stream='oracle.hybrid-sum'):
+        """the full Hybrid ReH against  MB part + PV/pi - C  (C from `pars`); returns a `bad` entry or None"""
+        nonlocal n_oracle
+        pv, _ = pv_scipy(lambda x: float(D.ImH(th, pt, x)), pt.xi, 'V')
+        Cind = pars['C'] / (1. - pt.t / pars['mC2']) ** 2
+        ref = mbH + pv / math.pi - Cind
+        scale = abs(pv / math.pi) + abs(logterm(pt.xi, 'V') * float(D.ImH(th, pt)) / math.pi)
+        n_oracle += 1
+        rep.case(stream, (name, pt.xi, pt.t), sample=dict(model=name, xi=pt.xi, t=pt.t, ReH=v, reference=ref))
+        if not isinstance(v, float) or abs(v - ref) > ORACLE_TOL * scale + 1e-13 * (abs(Cind) + abs(mbH)):
+            return ('H(sum)', v, ref, abs(v - ref) / scale if isinstance(v, float) and scale else None)
+        if scale > 0:
+            record('Hybrid.ReH', abs(v - ref) / scale)
+        return None
 
     # ---------------- the models under test ----------------
     n_models = 40 if quick else 600
@@ -379,6 +478,10 @@ def run(rep):
             th.parameters.clear()
             th.parameters.update(saved)
     # HybridCFF itself: ReEt = 0; HybridFixedPoleCFF: the fixed pole
+    # Only a failure to BUILD the ad-hoc classes because a class / mixin name of the package no longer exists (an
+    # AttributeError / ImportError / TypeError raised in this file) is a note; an exception coming out of the package while
+    # constructing is a violation (no kinematic input involved), one while EVALUATING is a violation with its failing input.
+    adhoc = None
     try:
         from gepard import eff, gpd, dvcs
 
@@ -390,25 +493,44 @@ def run(rep):
         hf, hp = HFix(), HPlain()
         for th in (hf, hp):
             th.parameters.update(fits.par_KM15)
+        adhoc = (hf, hp)
+    except Exception as e:  # noqa
+        if in_repo(e):
+            rep.violation('hybrid-sum/adhoc-construction', 'building a theory from HybridFixedPoleCFF / HybridCFF (KellyEFF, PWNormGPD, BM10, '
+                          'parameters of KM15) raises inside the package: %s' % traceback.format_exception_only(type(e), e)[-1].strip(),
+                          dict(classes=['eff.KellyEFF', 'gpd.PWNormGPD', 'cff.HybridFixedPoleCFF | cff.HybridCFF', 'dvcs.BM10'],
+                               traceback=traceback.format_exc()[-1500:]), found_input=False)
+        elif isinstance(e, (AttributeError, ImportError, TypeError)):
+            # could not build the ad-hoc Hybrid classes (names gone): only the shipped ones are covered
+            rep.notes.append('ad-hoc HybridFixedPoleCFF / HybridCFF theories not built: %r' % (e,))
+        else:
+            raise
+    if adhoc:
+        hf, hp = adhoc
         for _ in range(3 if quick else 20):
             pt, kw = gen_point()
             p = dict(hf.parameters)
             pre = prefix(p, pt.t, is_neutron(pt), pt.xi)
             base = dict(label='hybrid:fixedpole', pars={k: p[k] for k in PAR_ORDER}, kw=kw, xi=pt.xi, t=pt.t, n=is_neutron(pt), cls='HybridFixedPoleCFF')
-            add('c14.fixpole %s' % pre, kind='pole', impl=real(lambda: hf.ReEt(pt)), **base)
-            z = real(lambda: hp.ReEt(pt))
-            rep.case('hybrid-exact', ('HybridCFF.ReEt', pt.xi, pt.t))
-            if z != 0:
-                rep.violation('hybrid-sum/HybridCFF/ReEt', 'HybridCFF.ReEt(pt) = %r, not 0' % (z,), dict(kw=kw), found_input=False)
             with warnings.catch_warnings():
                 warnings.simplefilter('ignore')
-                a, b = real(lambda: hf.ReH(pt)), real(lambda: hp.ReH(pt))
-                c = float(cff.MellinBarnesCFF.ReH(hf, pt)) + D.ReH(hf, pt, imfun=D.ImH)
+                ev = dict(fixEt=real(lambda: hf.ReEt(pt)), plainEt=real(lambda: hp.ReEt(pt)),
+                          fixH=real(lambda: hf.ReH(pt)), plainH=real(lambda: hp.ReH(pt)),
+                          mbH=real(lambda: cff.MellinBarnesCFF.ReH(hf, pt)), dispH=real(lambda: D.ReH(hf, pt, imfun=D.ImH)))
+            rep.case('hybrid-exact', ('HybridCFF.ReEt', pt.xi, pt.t))
+            raised = {k: v for k, v in ev.items() if not isinstance(v, float)}
+            if raised:
+                rep.violation('hybrid-sum/adhoc-evaluation', 'HybridFixedPoleCFF (fix) / HybridCFF (plain) theory with the parameters of KM15 at %r: '
+                              'no real value from %r' % (kw, raised), dict(kw=kw, parameters=base['pars'], observed={k: str(v) for k, v in ev.items()}))
+                continue
+            add('c14.fixpole %s' % pre, kind='pole', impl=ev['fixEt'], **base)
+            z = ev['plainEt']
+            if z != 0:
+                rep.violation('hybrid-sum/HybridCFF/ReEt', 'HybridCFF.ReEt(pt) = %r, not 0' % (z,), dict(kw=kw), found_input=False)
+            a, b, c = ev['fixH'], ev['plainH'], ev['mbH'] + ev['dispH']
             if not (a == b == c):
                 rep.violation('hybrid-sum/HybridFixedPoleCFF/ReH', 'HybridFixedPoleCFF.ReH = %r, HybridCFF.ReH = %r, MB + dispersive = %r'
                               % (a, b, c), dict(kw=kw, parameters=base['pars']))
-    except Exception as e:  # noqa: could not build the ad-hoc Hybrid classes: only the shipped ones are covered
-        rep.notes.append('ad-hoc HybridFixedPoleCFF / HybridCFF theories not built: %r' % (e,))
 
     # ---------------- sequences on ONE model instance: the same (xi, t) with another target or scale ----------------
     # (per-instance memoisation with an incomplete key shows only here); reference = a fresh instance per evaluation
@@ -441,14 +563,172 @@ def run(rep):
                                   '%s.%s at %s returns %r on an instance that had evaluated %s before, but %r on a fresh instance'
                                   % (type(shared_obj).__name__, w, kw, a, seq[:k], b), dict(model=which, sequence=seq, step=k, which=w))
 
+    # ---------------- REUSE: one model object, its parameters changed several times by every public way ----------------
+    # parameters is a plain public attribute of ParameterModel (model.py: "Attributes: parameters: dict"; add_parameters itself
+    # binds it); the package reads self.parameters at call time, so a model evaluated after its parameters were changed - in place
+    # or by binding another dict - must use the values that are bound NOW.  After every step: (a) the property itself (PV oracle,
+    # subtraction constant computed here from the bound dict), (b) every CFF bit-for-bit against a FRESH object of the same class.
+    HOWS = ['update', 'setitem', 'rebind-merge', 'rebind-full', 'rebind-copy+update']
+    EVALS = ('ReH', 'ReE', 'ReHt', 'ReEt', 'ImH', 'ImHt', 'ImE', 'subtraction')
+
+    def draw(k):
+        if k in MILD:
+            return rng.uniform(*MILD[k])
+        lo, hi = LIMITS[k] if k in LIMITS else FREE_LIMITS[k]
+        r = rng.random()
+        return lo if r < 0.1 else hi if r < 0.2 else rng.uniform(lo, hi)
+
+    def draw_changes(cur):
+        keys = [k for k in list(LIMITS) + list(FREE_LIMITS) if k in cur and rng.random() < 0.5]
+        keys += [k for k in MILD if k in cur and rng.random() < 0.15]
+        if not keys:
+            keys = [rng.choice(['C', 'mC2'])]
+        return {k: draw(k) for k in keys}
+
+    def draw_full(complete):
+        """a complete parameter dict built from scratch: the dispersive parameters of a shipped set, every parameter with
+        declared limits redrawn; the remaining keys (form factors, MB part) as in `complete`"""
+        d = dict(complete)
+        src = shipped[rng.choice(list(shipped))].parameters
+        d.update({k: v for k, v in src.items() if k in d and (k in PAR_ORDER or k in FREE_LIMITS)})
+        for k in list(LIMITS) + list(FREE_LIMITS):
+            if k in d:
+                d[k] = draw(k)
+        if d.get('tNv') == 0 and rng.random() < 0.7:
+            d['tNv'] = 0.6
+        return d
+
+    def show(st):
+        v = st['values']
+        ks = [kk for kk in ('C', 'mC2') if kk in v] + [kk for kk in v if kk not in ('C', 'mC2') and (kk in PAR_ORDER or kk in FREE_LIMITS)]
+        return '%s(%s%s)' % (st['how'], ', '.join('%s=%.6g' % (kk, v[kk]) for kk in ks[:4]), ', ... %d more' % (len(v) - 4) if len(v) > 4 else '')
+
+    def evaluate(o, pt):
+        with warnings.catch_warnings():
+            warnings.simplefilter('ignore')
+            return {w: real(lambda: getattr(o, w)(pt)) for w in EVALS}
+
+    def same(a, b):
+        return a == b or (isinstance(a, float) and isinstance(b, float) and a != a and b != b)
+
+    def reuse_object(label, m, mkfresh, complete, nsteps, npts, steps0=()):
+        steps = list(steps0)        # what was done to the object since its construction
+        hyb = isinstance(m, cff.HybridCFF)
+        cname = type(m).__name__
+        hows = HOWS[:]
+        rng.shuffle(hows)
+        hows = (hows + [rng.choice(HOWS) for _ in range(nsteps)])[:max(nsteps, len(HOWS))]
+        for k, how in enumerate(hows):
+            step = dict(how=how, values=draw_full(complete) if how == 'rebind-full' else draw_changes(m.parameters))
+            if how.startswith('rebind') and rng.random() < 0.5:
+                step['detached_write'] = {kk: draw(kk) for kk in ('C', 'mC2', 'rv', 'bv')}
+            apply_step(m, step)
+            steps.append(step)
+            rep.hist('reuse.how', how)
+            rep.hist('reuse.class', label)
+            for _ in range(npts):
+                cur = dict(m.parameters)         # the values bound now (read by the harness, not by the model)
+                pt, kw = gen_point()
+                rp = dict(model_class=label if label.startswith('shipped:') else cname, assignments=list(steps),
+                          parameters={kk: cur[kk] for kk in cur if kk in PAR_ORDER or kk in FREE_LIMITS}, kw=kw)
+                said = 'after the parameter assignments %s on one %s object' % (' ; '.join(show(st) for st in steps), label)
+                flagged = set()
+                got = evaluate(m, pt)
+                # (a) the property itself, with the CURRENT parameters
+                Cind = cur['C'] / (1. - pt.t / cur['mC2']) ** 2
+                rep.case('reuse.subtraction', (label, k, pt.t, cur['C'], cur['mC2']))
+                if not (isinstance(got['subtraction'], float) and abs(got['subtraction'] - Cind) <= 1e-13 * abs(Cind)):
+                    flagged.add('subtraction')
+                    rep.violation('reuse/%s/subtraction' % cname, 're-used %s: subtraction(pt) = %r at t=%r, but its parameters now are C=%r, mC2=%r: C/(1-t/mC2)^2 = %r; %s'
+                                  % (cname, got['subtraction'], pt.t, cur['C'], cur['mC2'], Cind, said),
+                                  dict(rp, which='subtraction', observed=str(got['subtraction']), required=Cind))
+                bad = km_oracle('reuse:' + label, m, pt, kw, cur, via=D if hyb else None, stream='oracle.reuse')
+                if hyb:
+                    mb = real(lambda: cff.MellinBarnesCFF.ReH(m, pt))
+                    if not isinstance(mb, float):
+                        bad.append(('H(MB part)', mb, None, None))
+                    else:
+                        b = hybrid_sum_oracle(label, m, pt, cur, mb, got['ReH'], stream='oracle.reuse')
+                        if b:
+                            bad.append(b)
+                for w, v, ref, rel in bad:
+                    flagged.add('Re' + w.split('(')[0])
+                    rep.violation('reuse/%s/Re%s' % (cname, w),
+                                  're-used %s: Re%s(pt) = %r at %r, but (MB part +) PV/pi -/+ C of its own Im%s with the parameters it has NOW '
+                                  '(C=%r, mC2=%r) is %r (relative to the scale of the integral: %s, allowed %g); %s'
+                                  % (cname, w, v, kw, w.split('(')[0], cur['C'], cur['mC2'], ref, rel, ORACLE_TOL, said),
+                                  dict(rp, which='Re' + w, observed=v, required=ref, rel=rel))
+                # (b) bit-for-bit against a fresh object with these values
+                fresh = mkfresh()
+                fresh.parameters.update(cur)
+                want = evaluate(fresh, pt)
+                for w in EVALS:
+                    rep.case('reuse', (label, k, how, w, pt.xi, pt.t, is_neutron(pt)),
+                             sample=dict(model=label, step=k, how=how, which=w, kw=kw, value=got[w]) if w == 'ReH' and k == 0 else None)
+                    if not same(got[w], want[w]) and w not in flagged:
+                        rep.violation('reuse-fresh/%s/%s' % (cname, w),
+                                      're-used %s: %s(pt) = %r at %r, but a fresh %s with the same parameter values gives %r; %s'
+                                      % (cname, w, got[w], kw, cname, want[w], said),
+                                      dict(rp, which=w, observed=str(got[w]), required=str(want[w])))
+                # the temporary way: predict(pt, observable=..., parameters=...) on the re-used object
+                if rng.random() < 0.5:
+                    tmp = draw_changes(cur)
+                    w = rng.choice(['ReH', 'ReE'])
+                    before = dict(m.parameters)
+                    with warnings.catch_warnings():
+                        warnings.simplefilter('ignore')
+                        a = real(lambda: m.predict(pt, observable=w, parameters=tmp))
+                        fresh2 = mkfresh()
+                        fresh2.parameters.update(dict(cur, **tmp))
+                        b = real(lambda: getattr(fresh2, w)(pt))
+                    rep.case('reuse', (label, k, 'predict', w, pt.xi, pt.t, is_neutron(pt)))
+                    rep.hist('reuse.how', 'predict(parameters=)')
+                    if not same(a, b) or dict(m.parameters) != before:
+                        rep.violation('reuse-fresh/%s/predict' % cname,
+                                      're-used %s: predict(pt, observable=%r, parameters=%r) = %r at %r, a fresh %s with these values gives %r; '
+                                      'parameters restored afterwards: %s; %s' % (cname, w, tmp, a, kw, cname, b, dict(m.parameters) == before, said),
+                                      dict(rp, which=w, temporary=tmp, observed=str(a), required=str(b)))
+
+    n_plain, n_steps, n_pts, n_rounds = (3, 5, 1, 1) if quick else (24, 10, 2, 3)
+    for i in range(n_plain):
+        cls_ = [cff.DispersionFixedPoleCFF, cff.DispersionFreePoleCFF][i] if i < 2 else rng.choice([cff.DispersionFixedPoleCFF, cff.DispersionFreePoleCFF])
+        obj = cls_()
+        first = []
+        if rng.random() < 0.5:
+            src = shipped[rng.choice(list(shipped))].parameters
+            first = [dict(how='update', values={k: v for k, v in src.items() if k in obj.parameters})]
+            apply_step(obj, first[0])
+        reuse_object(cls_.__name__, obj, cls_, dict(cls_().parameters), n_steps, n_pts, steps0=first)
+    for name, th in shipped.items():
+        for _ in range(n_rounds):
+            orig = th.parameters
+            saved = dict(orig)
+            try:
+                reuse_object('shipped:' + name, th, type(th), saved, n_steps, n_pts)
+            finally:                         # the same dict OBJECT with the same content: other streams use these theories
+                th.parameters = orig
+                orig.clear()
+                orig.update(saved)
+    if cff.GoloskokovKrollCFF().parameters:
+        rep.notes.append('GoloskokovKrollCFF has parameters now (%r): the reuse stream does not vary them' % (sorted(cff.GoloskokovKrollCFF().parameters),))
+    else:
+        rep.hist('reuse.class', 'GoloskokovKrollCFF: no parameters, nothing to re-assign')
+
     # ---------------- GoloskokovKroll: wiring on the real objects ----------------
     gkm = cff.GoloskokovKrollCFF()
     DC = cff.DispersionCFF
     gk_jobs = []
+    # Q2: the values of gen_point (2.5, 4, 8) and a wider range (GK evolves its coefficients and intercepts with log(Q2/4)):
+    # quick - two extra points per object from GK_Q2_WIDE; thorough - two thirds of the points log-uniform in [1.5, 50] or from the set
+    GK_Q2_WIDE = [1.5, 2.0, 3.0, 6.0, 10.0, 16.0, 25.0, 50.0]
+    n_gk = 4 if quick else 120
     for mobj in (gkm, gk12d):
-        for _ in range(2 if quick else 12):
+        for j in range(n_gk):
             pt, kw = gen_point()
             kw.pop('in2particle', None)
+            if (quick and j >= 2) or (not quick and j % 3):
+                kw['Q2'] = rng.choice(GK_Q2_WIDE) if quick or rng.random() < 0.3 else math.exp(rng.uniform(math.log(1.5), math.log(50.)))
+            rep.hist('gk.Q2', '%g' % kw['Q2'] if kw['Q2'] in GK_Q2_WIDE + [2.5, 4., 8.] else 'log-uniform[1.5,50]')
             pt = g.DataPoint(**kw)
             r = dict(H=real(lambda: mobj.ReH(pt)), E=real(lambda: mobj.ReE(pt)), Ht=real(lambda: mobj.ReHt(pt)),
                      Et=real(lambda: mobj.ReEt(pt)))
@@ -465,7 +745,16 @@ def run(rep):
             gk_jobs.append((mobj, pt, kw, r))
 
     # ---------------- model vs code ----------------
-    out = common.run_driver(lines)
+    try:
+        out = common.run_driver(lines)
+    except common.ModelUnavailable as ex:
+        # the executable model does not build / run: no verdict by itself.  Reported without a failing input; every stream on the
+        # real objects (exact clauses, sequences, reuse above; all ORACLE streams below) runs regardless and keeps its violations.
+        out = []
+        rep.violation('model-unavailable', 'the Lean model driver for c14.* could not be run, the model-vs-code comparison (%d protocol lines) '
+                      'was skipped; the exact and oracle streams on the real code ran: %s' % (len(lines), str(ex)[:300]),
+                      dict(reason=str(ex)[:300]), found_input=False)
+        rep.notes.append('model driver unavailable: streams im / darg / sub / pole / re / err were not compared in this run')
     mismatches = []
     worst = {}
     for line, m, o in zip(lines, meta, out):
@@ -497,49 +786,6 @@ def run(rep):
     rep.coverage['model_vs_code_max_rel'] = {k: float('%.3g' % v) for k, v in worst.items()}
 
     # ---------------- ORACLE stream: the property itself on the real code ----------------
-    omax = {}
-    selfagree = 0.
-    n_oracle = 0
-
-    def record(tag, rel):
-        omax[tag] = max(omax.get(tag, 0.), rel)
-
-    def km_oracle(label, mobj, pt, kw, pars, via=None, cross=False):
-        """ReH / ReE / ReHt of a KM-type object against the PV integral of its own Im; `via` = class whose
-        methods are called unbound on a Hybrid object (the dispersive part)"""
-        nonlocal selfagree, n_oracle
-        bad = []
-        xi = pt.xi
-        if via is None:
-            imH, imHt = (lambda x: float(mobj.ImH(pt, x))), (lambda x: float(mobj.ImHt(pt, x)))
-            vals = dict(H=real(lambda: mobj.ReH(pt)), E=real(lambda: mobj.ReE(pt)), Ht=real(lambda: mobj.ReHt(pt)))
-            C = float(mobj.subtraction(pt))
-        else:
-            imH, imHt = (lambda x: float(via.ImH(mobj, pt, x))), (lambda x: float(via.ImHt(mobj, pt, x)))
-            vals = dict(H=real(lambda: via.ReH(mobj, pt, imfun=via.ImH)), E=real(lambda: via.ReE(mobj, pt, imfun=via.ImE)),
-                        Ht=real(lambda: via.ReHt(mobj, pt, imfun=via.ImHt)))
-            C = float(via.subtraction(mobj, pt))
-        # independent value of the subtraction constant of the KM models
-        Cind = pars['C'] / (1. - pt.t / pars['mC2']) ** 2
-        for w, F, kind, extra in (('H', imH, 'V', -Cind), ('E', (lambda x: 0.), 'V', +Cind), ('Ht', imHt, 'A', 0.)):
-            v = vals[w]
-            n_oracle += 1
-            if not isinstance(v, float):
-                bad.append((w, v, None, None))
-                continue
-            okk, rel, ref, scale, est = oracle_check(F, xi, kind, v, extra)
-            rep.case('oracle', (label, w, xi, pt.t, is_neutron(pt)), nontrivial=scale > 0 or extra != 0,
-                     sample=dict(model=label, which='Re' + w, xi=xi, t=pt.t, code=v, pv_reference=ref, rel=rel))
-            record('KM.Re' + w, rel if rel != float('inf') else 1e300)
-            if scale > 0:
-                rep.hist('oracle.rel.decade', int(math.floor(math.log10(max(rel, 1e-17)))))
-            if cross and scale > 0:
-                o2 = pv_mpmath(F, xi, kind) / math.pi + extra
-                selfagree = max(selfagree, abs(o2 - ref) / scale)
-            if not okk:
-                bad.append((w, v, ref, rel))
-        return bad
-
     n_or = len(oracle_jobs) if not quick else min(len(oracle_jobs), 220)
     step = max(1, len(oracle_jobs) // n_or)
     for idx, (label, mobj, pt, kw, pars) in enumerate(oracle_jobs[::step]):
@@ -557,17 +803,9 @@ def run(rep):
             th.parameters.update(pars)
             bad = km_oracle('hybrid:' + name, th, pt, kw, pars, via=D)
             # the full sum against MB part + PV integral
-            pv, _ = pv_scipy(lambda x: float(D.ImH(th, pt, x)), pt.xi, 'V')
-            Cind = pars['C'] / (1. - pt.t / pars['mC2']) ** 2
-            ref = mbH + pv / math.pi - Cind
-            scale = abs(pv / math.pi) + abs(logterm(pt.xi, 'V') * float(D.ImH(th, pt)) / math.pi)
-            v = full['H']
-            n_oracle += 1
-            rep.case('oracle.hybrid-sum', (name, pt.xi, pt.t), sample=dict(model=name, xi=pt.xi, t=pt.t, ReH=v, reference=ref))
-            if not isinstance(v, float) or abs(v - ref) > ORACLE_TOL * scale + 1e-13 * (abs(Cind) + abs(mbH)):
-                bad.append(('H(sum)', v, ref, abs(v - ref) / scale if isinstance(v, float) and scale else None))
-            elif scale > 0:
-                record('Hybrid.ReH', abs(v - ref) / scale)
+            b = hybrid_sum_oracle(name, th, pt, pars, mbH, full['H'])
+            if b:
+                bad.append(b)
         finally:
             th.parameters.clear()
             th.parameters.update(saved)
@@ -635,12 +873,23 @@ def run(rep):
         'parameters with declared limits are drawn within parameters_limits (incl. end points); parameters without declared '
         'limits (Regge intercepts/slopes, normalisations) take the shipped values or are varied inside %r' % (MILD,),
         'quadrature nodes/weights are read from gepard.quadrature (roots18, weights18) and fed to the model as data',
+        'reuse stream: `parameters` is a public plain attribute of ParameterModel (documented in its class docstring, bound by add_parameters); '
+        'changing it in place (update, item assignment, predict(parameters=...)) or binding another dict to it are both legitimate, and the '
+        'property quantifies over the parameter values of the model, i.e. the values bound when the CFF is evaluated: the oracle takes C and mC2 '
+        'from dict(m.parameters) read by the harness; subtraction(pt) is compared with C/(1-t/mC2)^2 within 1e-13 relative; the comparison with a '
+        'fresh object of the same class (parameters.update on construction defaults) is bit-for-bit: both run the same floating-point operations',
+        'GK streams: Q2 in {2.5, 4, 8} and, for part of the points, in {1.5, 2, 3, 6, 10, 16, 25, 50} (quick) or log-uniform in [1.5, 50] (thorough); '
+        'no handling of the removable singularity alpha_sea(t, Q2) = 1 of the GK sea (property C19): it matters only for t within ~1e-5 of the pole',
     ]
     rep.notes += [
         'GoloskokovKrollCFF / GK12D real parts ARE computed dispersively (inherit DispersionCFF.ReH/ReE/ReHt; ReEt = pole + '
         'DispersionCFF.ReEt): covered by the gk-wiring stream (bitwise) and the oracle.gk stream; the GK imaginary parts are not modelled in Lean',
         'oracle streams evaluate the property directly on the real code; they support the theorems (which isolate the quadrature '
         'error as the only non-exact term) and carry what no theorem carries: the 18-point accuracy',
+        'reuse stream (real objects only, not modelled in Lean: the model is a pure function of the parameter values): one object of '
+        'DispersionFixedPoleCFF / DispersionFreePoleCFF / each shipped theory (KM09a, KM09b, KM10, KM10b, KM15; restored to their own dict object '
+        'and content afterwards) whose parameters are changed several times in a row by update / item assignment / rebinding to a merged, copied '
+        'or completely new dict / predict(parameters=...), with writes into the dict that is no longer bound; GoloskokovKrollCFF has no parameters',
     ]
     return rep.finish(level='proof',
                       checker_cmd='lake build Props.C14; #print axioms; gepdriver c14.* vs gepard.cff; scipy QAWC oracle',
@@ -654,7 +903,7 @@ def replay(path):
     """re-evaluate the recorded input on the real code against the PV oracle"""
     r = json.load(open(path))
     print(json.dumps({k: r[k] for k in r if k not in ('parameters',)}, indent=1, default=str)[:3000])
-    if 'kw' not in r or 'model_class' not in r or not str(r.get('which', '')).startswith('Re'):
+    if 'kw' not in r or 'model_class' not in r or not (str(r.get('which', '')).startswith('Re') or r.get('assignments')):
         return 0
     import gepard as g
     from gepard import cff, fits
@@ -668,8 +917,28 @@ def replay(path):
         mobj = getattr(cff, mc)()
     else:
         mobj = cff.DispersionFreePoleCFF()
-    saved = dict(getattr(mobj, 'parameters', {}))
+    orig = getattr(mobj, 'parameters', None)
+    saved = dict(orig or {})
     try:
+        if r.get('assignments'):
+            # a re-used object: the recorded sequence of parameter assignments, then the value against a fresh object and the oracle
+            for st in r['assignments']:
+                apply_step(mobj, st)
+            cur = dict(mobj.parameters)
+            pt = g.DataPoint(**r['kw'])
+            fresh = type(mobj)()
+            fresh.parameters.update(cur)
+            w = r['which'].split('(')[0]
+            a, b = real(lambda: getattr(mobj, w)(pt)), real(lambda: getattr(fresh, w)(pt))
+            print('re-used object after %d assignments: %s = %r; fresh object with the same values: %r -> %s'
+                  % (len(r['assignments']), w, a, b, 'same' if a == b else 'DIFFERENT'))
+            Cind = cur['C'] / (1. - pt.t / cur['mC2']) ** 2
+            sub = real(lambda: mobj.subtraction(pt))
+            print('subtraction(pt) = %r; C/(1-t/mC2)^2 of the parameters bound now = %r' % (sub, Cind))
+            rc = 0 if a == b and isinstance(sub, float) and abs(sub - Cind) <= 1e-13 * abs(Cind) else 1
+            if not w.startswith('Re') or w == 'ReEt':
+                return rc
+            r = dict(r, parameters=None)
         if r.get('parameters'):
             mobj.parameters.update(r['parameters'])
         pt = g.DataPoint(**r['kw'])
@@ -687,14 +956,17 @@ def replay(path):
             F = lambda x: 0.0 if x >= 1.0 else float(im(pt, x))  # noqa  (x = 1, an end point the adaptive reference integrator may ask for, is outside the domain (0, 1): GK divides by 1 - eta there; every imaginary part vanishes at x = 1)
             v = float(getattr(mobj, 'Re' + w)(pt))
             sub = float(mobj.subtraction(pt))
+        if r.get('assignments'):
+            sub = Cind            # the subtraction constant of the parameters bound now, not the model's own word for it
         extra = -sub if w == 'H' else sub if w == 'E' else 0.
         if w == 'Et' and hasattr(mobj, 'ReEtpole'):
             extra = float(mobj.ReEtpole(pt))
         okk, rel, ref, scale, est = oracle_check(F, pt.xi, kind, v, extra)
         print('real code: Re%s = %r; PV reference %r; relative to scale %r (allowed %g): %s'
               % (w, v, ref, rel, ORACLE_TOL, 'ok' if okk else 'VIOLATED'))
-        return 0 if okk else 1
+        return 0 if okk and not (r.get('assignments') and rc) else 1
     finally:
-        if saved:
-            mobj.parameters.clear()
-            mobj.parameters.update(saved)
+        if orig is not None:
+            mobj.parameters = orig
+            orig.clear()
+            orig.update(saved)
